@@ -25,8 +25,14 @@ def check(run):
             run.ob("C11.R1", "%s:%s:%s" % (S, name, fname), ok, site, what)
         for fname, ok, site, what in tcp.replace_delete_facts(run, cls, set(conts)):
             run.ob("C11.R2", fname, ok, site, what)
+    # the `aborted` flag that serviceCxes trusts as "closed" is set only on paths that did close
+    hs = ix.method(ix.cls(S, "RemoterTls"), "handshake")
+    nf = 0
+    for fname, ok, site, what, tr in tcp.flag_implies_closed_facts(run, hs, "self.aborted"):
+        run.ob("C11.R2", "%s:%s" % (hs.fq, fname), ok, site, what, tr)
+        nf += 1
     run.floor("C11.R1", 5)
-    run.floor("C11.R2", 5)
+    run.floor("C11.R2", 6)
     for mod, name, sock in ((S, "Remoter", "self.cs"), (S, "RemoterTls", "self.cs"), (C, "Client", "self.cs"),
                             (C, "ClientTls", "self.cs"), (S, "Acceptor", "self.ss")):
         f = ix.method(ix.cls(mod, name), "close")
@@ -47,6 +53,7 @@ def check(run):
 
 
 MUTANTS = [
+    Mutant("handshake-aborts-without-close", S, "RemoterTls.handshake", "ex)\n                self.close()\n                self.aborted = True  # indicate client aborted handshake\n                return  # caller checks .aborted\n\n        except OSError", "ex)\n                self.aborted = True  # indicate client aborted handshake\n                return  # caller checks .aborted\n\n        except OSError", {"C11.R2"}),
     Mutant("server-close-no-closeall", S, "Server.close", "        self.closeAllIx()", "        pass", {"C11.R1"}, canary=True),
     Mutant("acceptor-close-no-sockclose", S, "Acceptor.close", "            self.ss.close()  #close socket\n", "", {"C11.R1", "C11.R3"}),
     Mutant("remoter-close-no-sockclose", S, "Remoter.close", "            self.cs.close()  #close socket\n", "", {"C11.R3"}, canary=True),
